@@ -330,36 +330,7 @@ func runC02(c *Ctx) {
 	}
 
 	// the restore closure ignores a record as stale only if its round is not newer
-	var restore *ssa.Function
-	for _, a := range newDB.AnonFuncs {
-		if len(a.Params) == 1 {
-			restore = a
-		}
-	}
-	if restore == nil {
-		// the closure may have become a function or method that NewVoteDB calls with each record read
-		for _, ci := range callInstrs(newDB) {
-			g := staticCallee(ci)
-			if g == nil || g.Blocks == nil || g.Pkg == nil || g.Pkg.Pkg.Path() != full(uconPkg) {
-				continue
-			}
-			takesItem := false
-			for _, prm := range g.Params {
-				if ownerName(prm.Type()) == "VoteItem" {
-					takesItem = true
-				}
-			}
-			writesMark := false
-			for _, fw := range fieldWrites(g) {
-				if fw.Field.Name() == "mark" {
-					writesMark = true
-				}
-			}
-			if takesItem && writesMark {
-				restore = g
-			}
-		}
-	}
+	restore := findVoteRestore(newDB)
 	if restore == nil {
 		c.Undecided("consensus/ucon.NewVoteDB$1#stale-record-test", newDB.Pos(), "the restore closure was not found")
 	} else {
@@ -427,6 +398,7 @@ func runC02(c *Ctx) {
 		} else {
 			c.sites += nIgnore
 			c.Check("consensus/ucon.NewVoteDB$1#stale-record-test", restore.Pos(), bad == 0 && nIgnore > 0, ifelse(bad == 0, fmt.Sprintf("all %d paths that ignore a verified record establish that its round is not newer than the restored one", nIgnore), fmt.Sprintf("%d of %d paths ignore a verified record without comparing rounds in its favour: a record of a NEWER round (with a lower round index) is dropped, the restored context stays behind, the next context update wipes the marks and the validator signs that kind again", bad, nIgnore)))
+			voteRestoreDecision(c, w, restore, roundF, idxF, markF, verifySig)
 			// a record of the restored (round, index) COUNTS: its kind's mark goes up by one (next-index has two records)
 			nSame, badSame := 0, 0
 			enumPaths(restore, 5000, func(pr PathResult) {
@@ -715,5 +687,204 @@ func c02Variants() []Variant {
 		{Name: "restore-without-round", File: "consensus/ucon/vote_cache.go", Old: "			v.round = vote.Round\n			v.roundIndex = vote.RoundIndex\n			v.mark = make(map[VoteType]uint8)", New: "			v.roundIndex = vote.RoundIndex\n			v.mark = make(map[VoteType]uint8)", Rule: "C02.S4", Construct: "NewVoteDB$1#mark-reset"},
 		{Name: "key-without-index", File: "consensus/ucon/vote_cache.go", Old: "append(int8ToBytes(uint8(voteType)), int8ToBytes(index)...)...)...)", New: "int8ToBytes(uint8(voteType))...)...)", Rule: "C02.S3", Construct: "key-binds-all-inputs"},
 		{Name: "latch-without-vote", File: "consensus/ucon/voter.go", Old: "			err := v.vote(Precommit, blockHash, priority)\n			if err == nil {\n				v.precommitted = true\n			}", New: "			v.vote(Precommit, blockHash, priority)\n			v.precommitted = true", Rule: "C02.S5", Construct: "precommitted"},
+	}
+}
+
+// findVoteRestore: the function NewVoteDB feeds every persisted vote record to
+// (a closure today; a function or method taking a *VoteItem and writing the
+// mark table after an extraction).
+func findVoteRestore(newDB *ssa.Function) *ssa.Function {
+	var restore *ssa.Function
+	for _, a := range newDB.AnonFuncs {
+		if len(a.Params) == 1 {
+			restore = a
+		}
+	}
+	if restore == nil {
+		// the closure may have become a function or method that NewVoteDB calls with each record read
+		for _, ci := range callInstrs(newDB) {
+			g := staticCallee(ci)
+			if g == nil || g.Blocks == nil || g.Pkg == nil || g.Pkg.Pkg.Path() != full(uconPkg) {
+				continue
+			}
+			takesItem := false
+			for _, prm := range g.Params {
+				if ownerName(prm.Type()) == "VoteItem" {
+					takesItem = true
+				}
+			}
+			writesMark := false
+			for _, fw := range fieldWrites(g) {
+				if fw.Field.Name() == "mark" {
+					writesMark = true
+				}
+			}
+			if takesItem && writesMark {
+				restore = g
+			}
+		}
+	}
+	return restore
+}
+
+// voteRestoreDecision: the replace / ignore / count decision of the restore
+// function is the lexicographic comparison of (round, index). Shared by C02.S4
+// and C05.D7.
+func voteRestoreDecision(c *Ctx, w *World, restore *ssa.Function, roundF, idxF, markF *types.Var, verifySig *types.Func) {
+	// the whole decision: with r = sign(restored round − record round) and i = sign(restored index − record index),
+	// a verified record replaces the restored context only if it is newer ((r<0) or (r=0, i<0)), is ignored only
+	// if it is older ((r>0) or (r=0, i>0)), and is counted only for the same context (r=0, i=0)
+	{
+		isIdxPair := func(x, y ssa.Value) (bool, bool) {
+			fx, _ := loadedField(stripConv(x))
+			fy, _ := loadedField(stripConv(y))
+			if fx == nil || fy == nil {
+				return false, false
+			}
+			if fx == idxF && fy.Name() == "RoundIndex" {
+				return true, false
+			}
+			if fy == idxF && fx.Name() == "RoundIndex" {
+				return true, true
+			}
+			return false, false
+		}
+		roundCmpDir := func(v ssa.Value) (bool, bool) {
+			cc, ok := stripConv(v).(*ssa.Call)
+			if !ok || calleeObj(cc) == nil || calleeObj(cc).Name() != "Cmp" {
+				return false, false
+			}
+			rf, _ := loadedField(stripConv(callRecv(cc)))
+			af, _ := loadedField(stripConv(callArgs(cc)[0]))
+			if rf == roundF && af != nil && af.Name() == "Round" {
+				return true, false
+			}
+			if af == roundF && rf != nil && rf.Name() == "Round" {
+				return true, true
+			}
+			return false, false
+		}
+		holds := func(sign int64, op token.Token, n int64) bool {
+			switch op {
+			case token.LSS:
+				return sign < n
+			case token.LEQ:
+				return sign <= n
+			case token.GTR:
+				return sign > n
+			case token.GEQ:
+				return sign >= n
+			case token.EQL:
+				return sign == n
+			}
+			return true
+		}
+		type verdict struct{ replace, ignore, count int }
+		var nv verdict
+		var badWhy []string
+		enumPaths(restore, 5000, func(pr PathResult) {
+			atoms := atomsOf(pr.Facts)
+			sigOK, haveRound := false, false
+			for _, a := range atoms {
+				if a.Kind == "true" && a.Truth {
+					if cc, ok := stripConv(a.X).(*ssa.Call); ok && sameFunc(calleeObj(cc), verifySig) {
+						sigOK = true
+					}
+				}
+				if a.Kind == "isnil" && !a.Truth {
+					if f, _ := loadedField(stripConv(a.X)); f == roundF {
+						haveRound = true
+					}
+				}
+			}
+			if !sigOK || !haveRound {
+				return
+			}
+			feasible := map[[2]int64]bool{}
+			for r := int64(-1); r <= 1; r++ {
+				for i := int64(-1); i <= 1; i++ {
+					feasible[[2]int64{r, i}] = true
+				}
+			}
+			for _, a := range atoms {
+				if a.Y == nil || (a.Kind != "eq" && a.Kind != "cmp") {
+					continue
+				}
+				op := a.Op
+				if a.Kind == "eq" {
+					op = token.EQL
+				}
+				if isR, flip := roundCmpDir(a.X); isR {
+					n, isC := constInt(a.Y)
+					if !isC {
+						continue
+					}
+					for k := range feasible {
+						sg := k[0]
+						if flip {
+							sg = -sg
+						}
+						if holds(sg, op, n) != a.Truth {
+							delete(feasible, k)
+						}
+					}
+					continue
+				}
+				if isI, flip := isIdxPair(a.X, a.Y); isI {
+					for k := range feasible {
+						sg := k[1]
+						if flip {
+							sg = -sg
+						}
+						if holds(sg, op, 0) != a.Truth {
+							delete(feasible, k)
+						}
+					}
+				}
+			}
+			if len(feasible) == 0 {
+				return
+			}
+			storesRound, writesMark := false, false
+			for _, fw := range fieldWrites(restore) {
+				if !pr.Blocks[fw.Instr.Block()] || isLocalAlloc(fw.Base) {
+					continue
+				}
+				if fw.Field == roundF {
+					storesRound = true
+				}
+				if fw.Field == markF {
+					writesMark = true
+				}
+			}
+			action := "ignored"
+			allowed := func(k [2]int64) bool { return k[0] > 0 || (k[0] == 0 && k[1] > 0) }
+			switch {
+			case storesRound:
+				action = "made the restored context"
+				allowed = func(k [2]int64) bool { return k[0] < 0 || (k[0] == 0 && k[1] < 0) }
+				nv.replace++
+			case writesMark:
+				action = "counted into the restored context"
+				allowed = func(k [2]int64) bool { return k[0] == 0 && k[1] == 0 }
+				nv.count++
+			default:
+				nv.ignore++
+			}
+			for k := range feasible {
+				if !allowed(k) {
+					rel := map[int64]string{-1: "older than", 0: "equal to", 1: "newer than"}
+					badWhy = append(badWhy, fmt.Sprintf("a record is %s although the restored round may be %s and the restored index %s the record's", action, rel[k[0]], rel[k[1]]))
+				}
+			}
+		})
+		sort.Strings(badWhy)
+		c.sites += nv.replace + nv.ignore + nv.count
+		okAll := len(badWhy) == 0 && nv.replace > 0 && nv.ignore > 0 && nv.count > 0
+		why := "one of the three decisions (replace / ignore / count) was not found"
+		if len(badWhy) > 0 {
+			why = badWhy[0]
+		}
+		c.Check("consensus/ucon.NewVoteDB$1#restore-decision-is-lexicographic", restore.Pos(), okAll, ifelse(okAll, fmt.Sprintf("%d replacing, %d ignoring and %d counting paths: newer records replace, older ones are ignored, same-context ones count", nv.replace, nv.ignore, nv.count), why+": after a restart the vote marks describe the wrong (round, index) and the validator signs a second, conflicting vote"))
 	}
 }
